@@ -226,7 +226,10 @@ class Gen:
             ss = [self.some_simplex() for _ in range(rnd.randint(0, 3))]
             return 'dels %s %s' % (v, list_s(ss))
         if op == 'restrict':
-            if not bad and pts:
+            if not bad and pts and rnd.random() < 0.3:
+                # a list that mentions points more than once (often exactly as long as the point list)
+                bs = [rnd.choice(pts) for _ in range(len(pts) if rnd.random() < 0.6 else rnd.randint(1, len(pts) + 2))]
+            elif not bad and pts:
                 bs = rnd.sample(pts, rnd.randint(0, len(pts)))
             else:
                 bs = [self.some_simplex() if rnd.random() < 0.6 else rnd.choice(self.pool) for _ in range(rnd.randint(1, 3))]
@@ -249,6 +252,16 @@ class Gen:
                     ss = [x for x in ss if not _is_auto(x)]
                 chosen = rnd.sample(ss, min(len(ss), rnd.randint(0, 3)))
                 m = []
+                if bad and len(ss) >= 2 and free and rnd.random() < 0.35:
+                    # two (or three) simplices sent onto one and the same unused name
+                    tgt = free.pop()
+                    for s in rnd.sample(ss, min(len(ss), rnd.randint(2, 3))):
+                        m += [s, tgt]
+                    for s in chosen:
+                        if s not in m[0::2] and free and rnd.random() < 0.5:
+                            m += [s, free.pop()]
+                    pairs = [m[i:i + 2] for i in range(0, len(m), 2)]; rnd.shuffle(pairs)
+                    return 'relabel %s map %s' % (v, list_s([x for pr in pairs for x in pr]))
                 for s in chosen:
                     if bad and rnd.random() < 0.5 and ss:
                         m += [s, rnd.choice(ss)]
